@@ -161,7 +161,8 @@ ScopeSeq(d, t, scope, rng) ==
 LoadSeq(d, r, q) == <<r>> \o PathSeq(d, r, q.path) \o ScopeSeq(d, Terminal(d, r, q.path), q.scope, q.rng)
 
 (* ======================= the family of small trees (M and G) ======================== *)
-CONSTANTS KA, KB, KC      \* entry kinds allowed for the names "a", "b", "c" of the root directory
+CONSTANTS KA, KB, KC,     \* entry kinds allowed for the names "a", "b", "c" of the root directory
+          RK, SK          \* kinds ("dir" / "hamt") allowed for the root directory and the sub-directory
 W == 8                     \* HAMT fan-out
 NameSeq == <<"a", "b", "c">>
 \* abstract HAMT hash: slot sequence per name (the harness picks real names with these murmur3 bits)
@@ -215,8 +216,8 @@ MkDirKind(kind, ent, id) == IF kind = "hamt" THEN MkHamt(ent, id) ELSE MkDir(ent
 
 SubId == 100
 RootId == 200
-TreeParams == {tp \in [rk : {"dir", "hamt"}, sk : {"dir", "hamt"}, a : KA, b : KB, c : KC] :
-                 tp.a # "sub" => tp.sk = "dir"}
+TreeParams == {tp \in [rk : RK, sk : SK \cup {"dir"}, a : KA, b : KB, c : KC] :
+                 IF tp.a = "sub" THEN tp.sk \in SK ELSE tp.sk = "dir"}
 EntId(k) == IF k = "none" THEN 0 ELSE KindId(k, SubId)
 MkDag(tp) ==
   LET sub  == MkDirKind(tp.sk, [a |-> 4, b |-> 15, c |-> 8], SubId)
